@@ -30,3 +30,25 @@ func (ds *Dataset) VerifForceLeaseExpiry() bool {
 	}
 	return true
 }
+
+// VerifLsmCompact waits until badger's background compactors have merged the level-0 tables (they start
+// on their own once there are five of them) and then flattens the tree: versions and delete markers that no
+// reader can see any more are dropped, as happens in a long-running hub at moments of badger's choosing.
+// Returns the number of level-0 tables left.
+func (s *Store) VerifLsmCompact() int {
+	left := 0
+	for i := 0; i < 150; i++ {
+		left = 0
+		for _, l := range s.database.Levels() {
+			if l.Level == 0 {
+				left = l.NumTables
+			}
+		}
+		if left == 0 {
+			break
+		}
+		time.Sleep(20 * time.Millisecond)
+	}
+	_ = s.database.Flatten(2)
+	return left
+}
